@@ -239,13 +239,13 @@ SnapElev(g, nm, z, line) ==
   /\ UNCHANGED fvars
 
 KernelApply(g, k, line) ==
-  /\ g \in DOMAIN graphs /\ graphs[g].cur # <<>>
+  /\ g \in DOMAIN graphs /\ HasState(graphs[g], k.snap)
   /\ LET G == graphs[g]
          x == Ctx(G)
-         r == G.cur
-         key == [k |-> "kernel", g |-> G.key, dir |-> k.dir]
+         r == StateOf(G, k.snap)
+         key == [k |-> "kernel", g |-> ResultKeyGraph(G, k.snap), dir |-> k.dir, init |-> k.init]
          refused == k.thr > 1 /\ k.dir = "depth"
-     IN /\ Has("C10") =>
+     IN /\ (Has("C10") \/ (Has("C16") /\ k.snap # "")) =>
              /\ Chk("C10.Kernel.UnsupportedOrderRefused", line, (k.threw # "") = refused)
              /\ ~refused =>
                   /\ Chk("C10.Kernel.ExactlyOnce", line, KernelExactlyOnce(x, k))
